@@ -539,3 +539,192 @@ Definition judge_C11 (c : c11case) : bool * bool * bool :=
                 else obs_same_result (ec_flag_on c) (ec_flag_off c) in
   (agree, same && ec_inputs_unchanged c && gating && ec_concurrent_same c && ec_race_free c,
    match ic_obs (ec_case c) with ObsOk (_ :: _) _ _ _ => true | _ => false end).
+
+(* ======================= the static checker (C16, C17, C18) ======================= *)
+From NS Require Export Hover Names Typing.
+
+Inductive sev_obs := SevError | SevWarning | SevOther (n : Z).
+
+Inductive cobs :=
+| CObsOk (diags : list (diag * sev_obs)) (symbols : list symbol) (errors : nat)
+| CObsPanic (msg : string).
+
+Record ccase := mk_ccase { cc_prog : program; cc_parse : list diag; cc_obs : cobs }.
+
+Definition kind_eqb (a b : diag_kind) : bool :=
+  match a, b with
+  | DParsing x, DParsing y => String.eqb x y
+  | DInvalidType x, DInvalidType y | DDuplicateVariable x, DDuplicateVariable y | DUnboundVariable x, DUnboundVariable y
+  | DUnusedVar x, DUnusedVar y | DUnknownFunction x, DUnknownFunction y | DEmptiedAccount x, DEmptiedAccount y => String.eqb x y
+  | DTypeMismatch a1 b1, DTypeMismatch a2 b2 => String.eqb a1 a2 && String.eqb b1 b2
+  | DBadAllotmentSum p, DBadAllotmentSum q | DFixedPortionVariable p, DFixedPortionVariable q => Qeq_bool p q
+  | DBadArity a1 b1, DBadArity a2 b2 => (a1 =? a2) && (b1 =? b2)
+  | DRemainingIsNotLast, DRemainingIsNotLast | DRedundantRemaining, DRedundantRemaining
+  | DInvalidWorldOverdraft, DInvalidWorldOverdraft | DNoAllotmentInSendAll, DNoAllotmentInSendAll
+  | DInvalidUnboundedAccount, DInvalidUnboundedAccount | DUnboundedAccountIsNotLast, DUnboundedAccountIsNotLast
+  | DDivByZero, DDivByZero => true
+  | _, _ => false
+  end.
+
+Definition diag_eqb (a b : diag) : bool := range_eqb (d_range a) (d_range b) && kind_eqb (d_kind a) (d_kind b).
+
+Definition is_unused (d : diag) : bool := match d_kind d with DUnusedVar _ => true | _ => false end.
+
+(* multiset equality of short lists *)
+Fixpoint remove_first {A} (eqb : A -> A -> bool) (x : A) (l : list A) : option (list A) :=
+  match l with
+  | [] => None
+  | y :: l' => if eqb x y then Some l' else match remove_first eqb x l' with Some r => Some (y :: r) | None => None end
+  end.
+Fixpoint multiset_eqb {A} (eqb : A -> A -> bool) (l1 l2 : list A) : bool :=
+  match l1 with
+  | [] => match l2 with [] => true | _ => false end
+  | x :: l1' => match remove_first eqb x l2 with Some l2' => multiset_eqb eqb l1' l2' | None => false end
+  end.
+
+Definition symbol_eqb (a b : symbol) : bool :=
+  String.eqb (sy_name a) (sy_name b) && String.eqb (sy_detail a) (sy_detail b) && range_eqb (sy_range a) (sy_range b).
+
+(* the model's analysis of the dumped tree agrees with the implementation's: the diagnostics before
+   the final unused-variable sweep in the same order, the unused-variable ones and the symbols as
+   multisets (the implementation iterates Go maps there), severities as the model says *)
+Definition agree_check (c : ccase) : bool :=
+  match check_default (cc_prog c) (cc_parse c), cc_obs c with
+  | Ok cs, CObsOk ds syms nerr =>
+      let mine := cs_diags cs in
+      let theirs := map fst ds in
+      list_eqb diag_eqb (filter (fun d => negb (is_unused d)) mine) (filter (fun d => negb (is_unused d)) theirs)
+      && multiset_eqb diag_eqb (filter is_unused mine) (filter is_unused theirs)
+      && forallb (fun ds => match severity_of (d_kind (fst ds)), snd ds with
+                            | Check.SevError, SevError | Check.SevWarning, SevWarning => true | _, _ => false end) ds
+      && Nat.eqb (errors_count mine) nerr
+      && match symbols_of (cs_declared cs) with Ok ms => multiset_eqb symbol_eqb ms syms | _ => false end
+  | Panic _, CObsPanic _ => true
+  | _, _ => false
+  end.
+
+Definition use_eqb (a b : use) : bool := String.eqb (fst a) (fst b) && range_eqb (snd a) (snd b).
+
+Definition obs_diags (o : cobs) : list (diag * sev_obs) := match o with CObsOk ds _ _ => ds | _ => [] end.
+
+Definition diags_of_kind (sel : diag_kind -> option string) (ds : list (diag * sev_obs)) : list use :=
+  flat_map (fun d : diag * sev_obs => match sel (d_kind (fst d)) with Some n => [(n, d_range (fst d))] | None => [] end) ds.
+
+(* C16: exactness about names (independent traversal of Spec/Names) and no false error on scripts
+   that are valid by Spec/Typing *)
+Definition prop_C16 (c : ccase) : bool :=
+  match cc_obs c with
+  | CObsPanic _ => false
+  | CObsOk ds _ _ =>
+      let ev := events (cc_prog c) in
+      list_eqb use_eqb (unbound_uses [] ev) (diags_of_kind (fun k => match k with DUnboundVariable n => Some n | _ => None end) ds)
+      && list_eqb use_eqb (duplicate_decls [] ev) (diags_of_kind (fun k => match k with DDuplicateVariable n => Some n | _ => None end) ds)
+      && multiset_eqb use_eqb (unused_decls [] ev) (diags_of_kind (fun k => match k with DUnusedVar n => Some n | _ => None end) ds)
+      && (if valid (cc_prog c) && match cc_parse c with [] => true | _ => false end
+          then forallb (fun d : diag * sev_obs => match snd d with SevError => false | _ => true end) ds
+          else true)
+  end.
+
+Definition judge_C16 (c : ccase) : bool * bool * bool :=
+  (agree_check c, prop_C16 c, match cc_parse c with [] => true | _ => false end).
+
+(* C17: each script is both checked and run *)
+Record c17case := mk_c17case { sv_check : ccase; sv_run : icase }.
+
+Definition static_class_errors : list string :=
+  ["TypeError"; "UnboundVariableErr"; "UnboundFunctionErr"; "BadArityErr"; "InvalidTypeErr"].
+Definition sendall_shape_errors : list string := ["InvalidAllotmentInSendAll"; "InvalidUnboundedInSendAll"].
+
+Definition prop_C17 (c : c17case) : bool :=
+  match cc_obs (sv_check c) with
+  | CObsPanic _ => true                      (* C18's business *)
+  | CObsOk ds _ nerr =>
+      let cls := obs_class (ic_obs (sv_run c)) in
+      (if Nat.eqb nerr 0 then negb (mem_str cls static_class_errors) else true)
+      && (match ds with [] => negb (mem_str cls sendall_shape_errors) | _ => true end)
+  end.
+
+Definition judge_C17 (c : c17case) : bool * bool * bool :=
+  (agree_check (sv_check c) && agree_full (sv_run c), prop_C17 c,
+   match cc_obs (sv_check c) with CObsOk _ _ nerr => Nat.eqb nerr 0 | _ => false end).
+
+(* ======================= C18: editor analysis survives any text ======================= *)
+Inductive hobs := HONone | HOVar (r : range) (name : string) | HOFn (r : range) (name : string) | HOPanic.
+Inductive gobs := GONone | GORange (r : range) | GOPanic.
+
+Record c18case := mk_c18case {
+  ed_check : ccase;
+  ed_second : cobs;                               (* the same text analysed a second time *)
+  ed_lines : list Z;                              (* length of every line, in characters *)
+  ed_hovers : list (Z * Z * hobs);                (* (line, character, result) where the result is not "nothing" *)
+  ed_gotos : list (Z * Z * gobs) }.
+
+Definition hobs_eqb (a b : hobs) : bool :=
+  match a, b with
+  | HONone, HONone | HOPanic, HOPanic => true
+  | HOVar r1 n1, HOVar r2 n2 | HOFn r1 n1, HOFn r2 n2 => range_eqb r1 r2 && String.eqb n1 n2
+  | _, _ => false
+  end.
+Definition gobs_eqb (a b : gobs) : bool :=
+  match a, b with
+  | GONone, GONone | GOPanic, GOPanic => true
+  | GORange r1, GORange r2 => range_eqb r1 r2
+  | _, _ => false
+  end.
+
+Definition model_hover (p : program) (l c : Z) : hobs :=
+  match hover_on p (mkpos l c) with
+  | Ok None => HONone
+  | Ok (Some (HVariable r n)) => HOVar r n
+  | Ok (Some (HBuiltin r n)) => HOFn r n
+  | _ => HOPanic
+  end.
+Definition model_goto (p : program) (cs : cstate) (l c : Z) : gobs :=
+  match goto_definition p (mkpos l c) cs with
+  | Ok None => GONone
+  | Ok (Some r) => GORange r
+  | _ => GOPanic
+  end.
+
+Fixpoint lookup_pos {A} (l c : Z) (m : list (Z * Z * A)) : option A :=
+  match m with
+  | [] => None
+  | (l', c', v) :: m' => if (l =? l') && (c =? c') then Some v else lookup_pos l c m'
+  end.
+
+(* every position of the document: (line, 0 .. length + 1) *)
+Definition positions (lines : list Z) : list (Z * Z) :=
+  flat_map (fun il : nat * Z => map (fun c => (Z.of_nat (fst il), Z.of_nat c)) (seq 0 (Z.to_nat (snd il) + 2)))
+           (combine (seq 0 (List.length lines)) lines).
+
+Definition range_sane (lines : list Z) (r : range) : bool :=
+  let nl := Z.of_nat (List.length lines) in
+  let s := rstart r in let e := rend r in
+  (0 <=? pline s) && (pline s <? Z.max nl 1) && (0 <=? pchar s) && (pchar s <=? nth (Z.to_nat (pline s)) lines 0)
+  && pos_ge e s.
+
+Definition cobs_same (a b : cobs) : bool :=
+  match a, b with
+  | CObsOk d1 s1 _, CObsOk d2 s2 _ => multiset_eqb diag_eqb (map fst d1) (map fst d2) && multiset_eqb symbol_eqb s1 s2
+  | CObsPanic _, CObsPanic _ => true
+  | _, _ => false
+  end.
+
+Definition judge_C18 (c : c18case) : bool * bool * bool :=
+  let p := cc_prog (ed_check c) in
+  let cs := match check_default p (cc_parse (ed_check c)) with Ok cs => cs | _ => initial_cstate [] end in
+  let pos := positions (ed_lines c) in
+  let agree :=
+    agree_check (ed_check c)
+    && forallb (fun lc : Z * Z =>
+         hobs_eqb (model_hover p (fst lc) (snd lc)) (match lookup_pos (fst lc) (snd lc) (ed_hovers c) with Some h => h | None => HONone end)
+         && gobs_eqb (model_goto p cs (fst lc) (snd lc)) (match lookup_pos (fst lc) (snd lc) (ed_gotos c) with Some g => g | None => GONone end)) pos in
+  let prop :=
+    match cc_obs (ed_check c) with
+    | CObsPanic _ => false
+    | CObsOk ds _ _ => forallb (fun d : diag * sev_obs => range_sane (ed_lines c) (d_range (fst d))) ds
+    end
+    && cobs_same (cc_obs (ed_check c)) (ed_second c)
+    && forallb (fun h : Z * Z * hobs => match snd h with HOPanic => false | _ => true end) (ed_hovers c)
+    && forallb (fun g : Z * Z * gobs => match snd g with GOPanic => false | _ => true end) (ed_gotos c) in
+  (agree, prop, match cc_parse (ed_check c) with [] => false | _ => true end).
